@@ -21,7 +21,6 @@ import (
 	"os"
 	"path/filepath"
 	"reflect"
-	"runtime"
 	"sort"
 	"strings"
 	"sync"
@@ -664,29 +663,4 @@ func (env *c19Env) serve(method, target string, body io.Reader, ctxTimeout, hang
 // c19OneJSON reports whether b is exactly one JSON value (surrounding whitespace allowed).
 func c19OneJSON(b []byte) bool {
 	return json.Valid(bytes.TrimSpace(b))
-}
-
-// c19WaitRefineIdle waits until no goroutine started by VImportCommit is
-// still working: such a goroutine is either gone or parked in the 10 s sleep
-// that follows its single refine pass on a small index.
-func c19WaitRefineIdle(deadline time.Duration) bool {
-	end := time.Now().Add(deadline)
-	buf := make([]byte, 4<<20)
-	for {
-		n := runtime.Stack(buf, true)
-		busy := false
-		for _, g := range bytes.Split(buf[:n], []byte("\n\n")) {
-			if (bytes.Contains(g, []byte("RunTurboRefine")) || bytes.Contains(g, []byte("VImportCommit.func1"))) && !bytes.Contains(g, []byte("time.Sleep")) {
-				busy = true
-				break
-			}
-		}
-		if !busy {
-			return true
-		}
-		if time.Now().After(end) {
-			return false
-		}
-		time.Sleep(300 * time.Microsecond)
-	}
 }
